@@ -334,7 +334,7 @@ def run_birth_direction(chk, F):
             '' if ok else '%s is called from %s: the class is ranked at the wrong end of the birth order, the surjective '
             'diamond and the transpositions then pick the wrong partner' % (other, fname),
             key='E7|Zigzag_persistence::%s|birth-direction' % fname)
-    chk.expect_count('E7-birth-direction', 'birth registrations in the arrow handlers', n, 2)
+    chk.expect_count('E7-birth-direction', 'birth registrations in the arrow handlers', n, 1)
 
 
 def run(tier, replay=None):
